@@ -21,6 +21,8 @@ from lib import common, tlc, vclock
 
 PROP = "C11"
 RANK_NAMES = ["n1", "n10", "n2", "n9"]          # string order = rank order, numeric order differs
+NAME_SETS = [RANK_NAMES, sorted(["10.0.0.1:11211", "10.0.0.10:11211", "10.0.0.2:11211", "10.0.0.9:11211"]),
+             sorted(["Alpha", "None", "Zulu", "alpha"]), sorted(["/var/run/a.sock", "[::1]:11211", "mc.example.com:11211", "0"])]
 
 CHILD = r"""
 import sys, json
@@ -78,7 +80,8 @@ CHECK_DEADLOCK FALSE
     for bi, b in enumerate(beh):
         if (bi + common.seed()) % stride:
             continue
-        score = {RANK_NAMES[i]: b["score"][i] for i in range(4)}
+        RN = NAME_SETS[(bi // 2) % len(NAME_SETS)]       # rank = position in string order; names of several shapes
+        score = {RN[i]: b["score"][i] for i in range(4)}
 
         def hf(x, seed, score=score):
             return score[x.rsplit("-", 1)[0]]
@@ -88,20 +91,20 @@ CHECK_DEADLOCK FALSE
         if bi % 2:
             # the first node comes in through the constructor's `nodes=` list instead of add_node
             lead = 1 if hist and hist[0][0] == "add" else 0
-            h = RendezvousHash([RANK_NAMES[hist[0][1] - 1]] if lead else None, hash_function=hf)
+            h = RendezvousHash([RN[hist[0][1] - 1]] if lead else None, hash_function=hf)
             if lead:
                 hist[0] = ["ctor", hist[0][1]]
         else:
             h = RendezvousHash(hash_function=hf)
         for op, n in hist:
-            name = RANK_NAMES[n - 1]
+            name = RN[n - 1]
             if op != "ctor":
                 (h.add_node if op == "add" else h.remove_node)(name)
-            order = [RANK_NAMES.index(x) + 1 for x in h.nodes]
+            order = [RN.index(x) + 1 for x in h.nodes]
             w = h.get_node("k")
             ev.append({"e": "rot", "nodes": order})
-            ev.append({"e": "place", "k": 1, "sc": [[rk, 0, score[RANK_NAMES[rk - 1]]] for rk in order],
-                       "w": RANK_NAMES.index(w) + 1 if w in RANK_NAMES else 0})
+            ev.append({"e": "place", "k": 1, "sc": [[rk, 0, score[RN[rk - 1]]] for rk in order],
+                       "w": RN.index(w) + 1 if w in RN else 0})
         traces.append({"h": {}, "ev": ev, "what": ("forced-ties", b["score"], b["hist"])})
     nforced = len(traces)
 
@@ -229,6 +232,24 @@ CHECK_DEADLOCK FALSE
             ev.append({"e": "place", "k": kid[k], "sc": [[ranks.get(n, 0)] + word(murmur3_32("%s-%s" % (n, k))) for n in hc.hasher.nodes],
                        "w": ranks.get(nm, 0)})
     traces.append({"h": {}, "ev": ev, "what": ("spellings",)})
+    # a server the client refuses (malformed address, real Client class: it validates the address): nothing changes
+    ev = []
+    ranks = dict(ranks)
+    hc = HashClient([c for c in canon])
+    ev.append({"e": "rot", "nodes": [ranks.get(n, 0) for n in hc.hasher.nodes]})
+    for bad in ("10.0.0.3:1121l", "[::1", ("10.0.0.4", "port"), "10.0.0.5:"):
+        try:
+            hc.add_server(bad) if not isinstance(bad, tuple) else hc.add_server(*bad)
+            refused = False
+        except Exception:   # noqa
+            refused = True
+        # refused: nothing may have changed; accepted after all (the library is lenient about that spelling): a new rotation
+        ev.append({"e": "noop" if refused else "rot", "nodes": [ranks.setdefault(n, 100 + len(ranks)) for n in hc.hasher.nodes]})
+    try:
+        hc.remove_server(("10.9.9.9", 11211))
+    except Exception:   # noqa
+        ev.append({"e": "noop", "nodes": [ranks.setdefault(n, 100 + len(ranks)) for n in hc.hasher.nodes]})
+    traces.append({"h": {}, "ev": ev, "what": ("refused-servers",)})
 
     for t in traces:
         t["h"] = {"maxrej": 5}
